@@ -55,9 +55,13 @@ class StripCommentsFilter:
             nidx, next_ = tlist.token_next(tidx, skip_ws=False)
             # Replace by whitespace if prev and next exist and if they're not
             # whitespaces. This doesn't apply if prev or next is a parenthesis.
+            # A comment without a left neighbour can go without a replacement
+            # only at the start of the statement: the first child of a nested
+            # group still follows the token in front of that group.
             if (
-                prev_ is None or next_ is None
-                or prev_.is_whitespace or prev_.match(T.Punctuation, '(')
+                (prev_ is None and tlist.parent is None) or next_ is None
+                or (prev_ is not None and (
+                    prev_.is_whitespace or prev_.match(T.Punctuation, '(')))
                 or next_.is_whitespace or next_.match(T.Punctuation, ')')
             ):
                 # Insert a whitespace to ensure the following SQL produces
